@@ -3,6 +3,7 @@ CONSTANTS
   N <- EnvN
   W <- EnvW
   Bug <- EnvBug
+  FullOps <- EnvFull
 VIEW IView
 INVARIANTS ITypeOK Refines EqualSetsEqualWords ObserversAgree NoPadding ConstructorsAgree Laws
 CHECK_DEADLOCK FALSE
